@@ -140,6 +140,9 @@ class NumpyStub:
         if isinstance(x, Arr) and (dtype is None or _np.dtype(dtype) == x.dtype):
             return x
         if isinstance(x, TArr):
+            if dtype is not None and _np.dtype(dtype) != x.dtype:
+                from . import tarr
+                return tarr.array_attr(self, x, "astype")(dtype)
             return x
         if hasattr(x, "lib") and hasattr(x, "values") and isinstance(getattr(x, "values"), Arr):
             return self.as_arr(x.values, dtype)        # pandas / polars Series convert through __array__
@@ -1050,6 +1053,8 @@ class NumpyStub:
         return r
 
     def f_copy(self, x, **k):
+        if isinstance(x, TArr):
+            return TArr(x.term, x.shape, x.dtype)
         return self.as_arr(x).copy()
 
     def f_ascontiguousarray(self, x, dtype=None):
@@ -1106,6 +1111,11 @@ class NumpyStub:
         return a
 
     def f_zeros_like(self, a, dtype=None, **k):
+        if isinstance(a, TArr):
+            from . import tarr
+            dt = _np.dtype(dtype or a.dtype)
+            zero = z3.RealVal(0) if dt.kind == "f" else z3.IntVal(0)
+            return tarr.from_fn(self, a.shape, dt, lambda *idx: zero)
         a = self.as_arr(a)
         return self.f_zeros(a.shape, dtype or a.dtype)
 
@@ -1277,6 +1287,9 @@ class NumpyStub:
         return self.map1(x, f, _np.dtype(bool))
 
     def f_abs(self, x):
+        if isinstance(x, TArr):
+            from . import tarr
+            return tarr.absolute(self, x)
         return self.map1(x, lambda e: raw(absval(e)))
 
     f_absolute = f_abs
@@ -1382,9 +1395,15 @@ class NumpyStub:
     f_amax = f_max
 
     def f_any(self, x, axis=None, **k):
+        if isinstance(x, TArr):
+            from . import tarr
+            return tarr.any_(self, x)
         return self.m_any(self.as_arr(x), axis)
 
     def f_all(self, x, axis=None, **k):
+        if isinstance(x, TArr):
+            from . import tarr
+            return tarr.all_(self, x)
         return self.m_all(self.as_arr(x), axis)
 
     def f_mean(self, x, axis=None, **k):
@@ -1430,6 +1449,9 @@ class NumpyStub:
         return logic_or(a, b)
 
     def f_allclose(self, a, b, rtol=1e-5, atol=1e-8, equal_nan=False):
+        if isinstance(a, TArr) and isinstance(b, TArr):
+            from . import tarr
+            return tarr.allclose(self, a, b, rtol, atol)
         a = self.as_arr(a) if isinstance(a, (list, tuple)) else a
         b = self.as_arr(b) if isinstance(b, (list, tuple)) else b
         r = self.f_isclose(a, b, rtol, atol, equal_nan)
@@ -1454,6 +1476,9 @@ class NumpyStub:
         The sortedness of `a` is recorded as an obligation of the caller (stub precondition)."""
         if sorter is not None:
             raise Untranslatable("searchsorted(sorter=)")
+        if isinstance(a, TArr):
+            from . import tarr
+            return tarr.searchsorted(self, a, v, side)
         a = self.as_arr(a)
         if a.ndim != 1:
             raise Raised(ValueError("object too deep for desired array"))
